@@ -2,21 +2,21 @@
 # usage: confirm_seed.sh <prop> <k>   -- independently confirm a seeded change produced by a sub-agent
 # writes /tmp/seedchk/<prop>_<k>.json ; scratch worktree is removed afterwards
 P=$1; K=$2
-SRC=/tmp/mut/$P.out/$K
-WT=/tmp/seedchk/wt_${P}_$K
-OUT=/tmp/seedchk/${P}_$K.json
+SRC=${MUTDIR:-/tmp/mut}/$P.out/$K
+WT=/tmp/seedchk/wt${TAG:-}_${P}_$K
+OUT=/tmp/seedchk/${TAG:-}${P}_$K.json
 export OMP_NUM_THREADS=1 MKL_NUM_THREADS=1
 rm -rf "$WT"; git -C /repo worktree prune
 git -C /repo worktree add -q --detach "$WT" HEAD || exit 3
 cd "$WT"
 run_demo() { PYTHONPATH="$WT" timeout 3000 /venv/bin/python "$SRC/demo.py" > "$1" 2>&1; echo $?; }
-CLEAN=$(run_demo /tmp/seedchk/${P}_$K.clean.log)
+CLEAN=$(run_demo /tmp/seedchk/${TAG:-}${P}_$K.clean.log)
 APPLY=0; git apply --whitespace=nowarn "$SRC/patch.diff" || APPLY=1
-MUT=$(run_demo /tmp/seedchk/${P}_$K.mut.log)
-PYTHONPATH="$WT" timeout 7200 /venv/bin/python -m pytest tests/test_dwt.py tests/test_dwt1d.py tests/test_dtcwt.py tests/test_scatnet_fwd.py -q -p no:cacheprovider -n ${NPROC:-5} --timeout=3000 > /tmp/seedchk/${P}_$K.tests.log 2>&1
-SUMMARY=$(tail -1 /tmp/seedchk/${P}_$K.tests.log)
-FAILED=$(grep -c "^FAILED" /tmp/seedchk/${P}_$K.tests.log)
-BARB=$(grep "^FAILED" /tmp/seedchk/${P}_$K.tests.log | grep -c "test_barbara_loaded\|test_simple\|test_specific_wavelet\|test_odd_rows\|test_odd_cols\|test_odd_rows_and_cols")
+MUT=$(run_demo /tmp/seedchk/${TAG:-}${P}_$K.mut.log)
+PYTHONPATH="$WT" timeout 7200 /venv/bin/python -m pytest tests/test_dwt.py tests/test_dwt1d.py tests/test_dtcwt.py tests/test_scatnet_fwd.py -q -p no:cacheprovider -n ${NPROC:-5} --timeout=3000 > /tmp/seedchk/${TAG:-}${P}_$K.tests.log 2>&1
+SUMMARY=$(tail -1 /tmp/seedchk/${TAG:-}${P}_$K.tests.log)
+FAILED=$(grep -c "^FAILED" /tmp/seedchk/${TAG:-}${P}_$K.tests.log)
+BARB=$(grep "^FAILED" /tmp/seedchk/${TAG:-}${P}_$K.tests.log | grep -c "test_barbara_loaded\|test_simple\|test_specific_wavelet\|test_odd_rows\|test_odd_cols\|test_odd_rows_and_cols")
 HEADC=$(git -C /repo rev-parse --short HEAD)
 cd /; git -C /repo worktree remove --force "$WT"
 python3 - "$OUT" "$P" "$K" "$CLEAN" "$APPLY" "$MUT" "$SUMMARY" "$FAILED" "$BARB" "$HEADC" <<'PY'
